@@ -7,10 +7,7 @@ options(True) / arguments(True) add the declared defaults (False for value-less 
 option(long) == option(short), argument(i) == argument(name), is_option_set / is_argument_set agree for every way of
 naming.  Generators and oracle live in specs/args_gen.py.
 """
-import hashlib
 import itertools
-import json
-import time
 
 from . import args_gen as G
 
@@ -22,12 +19,12 @@ BOUNDED_RULE = (
     "one spelled line (forms --l=v, --l v, -sv, -s v, grouped short flags with optional value-taking tail, options interleaved "
     "with positionals, command names present by name or alias or omitted from some point, `--` before any suffix of the "
     "positionals) parsed once strictly and once leniently on a fresh parser. A case is distinct by (format spec, token list, "
-    "mode); it is non-trivial when the format has at least one element and the line at least one token."
+    "mode); it is non-trivial when the format has at least one element and the line at least one token. Interpretation: an "
+    "optional-value option given bare is set to its declared default; when that default is None and the type is not nullable "
+    "there is no value of the declared type to recover: for str both None and the library's rendering 'null' are accepted, for "
+    "int/float/bool the documented ValueError ('The value \"None\" cannot be parsed ...') is accepted, any other exception "
+    "(D3: TypeError) is reported as roundtrip|bare-optional-none-default|<type>|<exception>."
 )
-
-
-def _fid(spec):
-    return hashlib.blake2b(json.dumps(spec, sort_keys=True).encode(), digest_size=6).hexdigest()
 
 
 class _Runner(object):
@@ -61,7 +58,7 @@ class _Runner(object):
         """per assignment: every spelling when there are at most cap_all, otherwise k_over seeded random ones
         (cap_all == 0: always k_over random ones)"""
         fmt = G.build_format(spec)
-        fid = _fid(spec)
+        fid = G.fid(spec)
         for A in assignments:
             sp = None
             if cap_all:
@@ -162,7 +159,7 @@ def bounded(ctx):
         ctx.done(exhaustive=exhaustive_possible and not r.capped and not r.stopped, note=r.note())
 
     # 1a -- every variant of one option, flat surroundings
-    cap, k = (0, 4) if quick else (3000, 40)
+    cap, k = (0, 6) if quick else (3000, 40)
     ctx.check("roundtrip_one_option",
               "every single-option format: value mode x type x nullable x short name x default None/typed (112 variants) x 2 "
               "surroundings (no argument, no name; 1 command name with alias + 1 required str argument) x all assignments (option "
@@ -176,7 +173,7 @@ def bounded(ctx):
     finish(r, not quick)
 
     # 1b -- every variant of one option under two command names, base format, optional + multi-valued arguments
-    pool, mpool, k = (3, 2, 2) if quick else (6, 3, 24)
+    pool, mpool, k = (3, 2, 3) if quick else (6, 3, 24)
     ctx.check("roundtrip_one_option_nested",
               "the 112 single-option variants in a base format that also holds the first of 2 command names (with aliases) and an "
               "optional int argument named cmd11 (default 5), own format: second name + multi-valued str argument; all assignments "
@@ -190,7 +187,7 @@ def bounded(ctx):
     finish(r, False)
 
     # 2 -- two (three) options together: groups, bare option followed by another option, value lookahead
-    cap, k = (0, 1) if quick else (200, 30)
+    cap, k = (0, 1) if quick else (80, 16)
     ctx.check("roundtrip_option_pairs",
               "every ordered pair of value modes (16) x 4 type pairs x 3 variants (plain / nullable / second without short name and "
               "first with typed default) in 2 surroundings (1 required argument; 1 command name + multi-valued argument + a third "
@@ -204,7 +201,7 @@ def bounded(ctx):
     finish(r, False)
 
     # 3 -- arguments
-    ppool, keep, cap, k = (2, 0.3, 0, 1) if quick else (3, 1.0, 40, 6)
+    ppool, keep, cap, k = (2, 0.3, 0, 1) if quick else (3, 1.0, 12, 4)
     ctx.check("roundtrip_arguments",
               "every valid argument list of length 0-2 over kind (required/optional/multi/required-multi) x type x nullable x "
               "default None/typed, x 0/1/2 command names with aliases (2 names: first name, flag and first argument in a base "
@@ -220,7 +217,7 @@ def bounded(ctx):
     finish(r, False)
 
     # 4 -- random larger formats
-    nfmt, nas, nsp = (1500, 3, 2) if quick else (20000, 3, 6)
+    nfmt, nas, nsp = (2500, 3, 2) if quick else (20000, 3, 6)
     ctx.check("roundtrip_random",
               "%d seeded random formats (0-5 options over every mode/type/nullable/short/default, 0-4 typed arguments, 0-2 command "
               "names with aliases, 40%% with a random base split) x %d random assignments (values from the 6-value pools, positionals "
